@@ -112,7 +112,8 @@ def extract(us, workdir):
         for d, cmd, tu, path in ex.map(one, srcs):
             docs += d; cmds.append(cmd); shas[tu] = cxx2c.sha256_file(path)
     m = models_mod.Models(extra_headers=us.model_headers)
-    for pl in us.plugins: m.add(pl)
+    import copy
+    for pl in us.plugins: m.add(copy.deepcopy(pl))     # plugins cache per-unit state (emitted container types): never shared between units
     unit = cxx2c.Unit(docs, models=m, spec=us.spec, stubs=us.stubs, drop_calls=us.drop_calls, rename=us.rename,
                       opaque_records=us.opaque_records)
     text = unit.emit(us.emit)
@@ -192,6 +193,7 @@ def cbmc_cmd(t, gb, backend):
     cmd = ['cbmc', gb] + [c for c in CBMC_BASE if c not in t.no_checks] + t.flags
     if t.unwind is not None: cmd += ['--unwind', str(t.unwind), '--unwinding-assertions']
     for u in t.unwindset: cmd += ['--unwindset', u]
+    if t.unwindset and t.unwind is None: cmd += ['--unwinding-assertions']
     if t.object_bits: cmd += ['--object-bits', str(t.object_bits)]
     if backend == 'cadical': cmd += ['--sat-solver', 'cadical']
     elif backend == 'cvc5': cmd += ['--cvc5']
